@@ -6,6 +6,7 @@ import (
 	"fmt"
 	"os"
 	"path/filepath"
+	"sync"
 	"time"
 
 	"github.com/klev-dev/klevdb"
@@ -15,32 +16,33 @@ import (
 
 // Hist is one sequential history: a real log directory, its handle and the reference model.
 type Hist struct {
-	id         string
-	prop       string
-	dir        string
-	scratch    string
-	cfg        ref.IndexCfg
-	opts       OpenOpts
-	log        klevdb.Log
-	model      *ref.Model
-	ops        []Op
-	everNonDec bool
-	lastPubT   int64
-	havePub    bool
-	gen        *GenState
-	cov        *Cov
-	rep        *Reporter
-	tier       string
-	seed       int64
-	idx        int
-	failed     bool
-	aborted    string
-	copyN      int
-	sizeOracle bool
-	bkObs      []string // observation of the last backup, taken right after the call
-	bkOO       ObsOpts
-	bkOpts     OpenOpts
-	segVer     map[int64]ref.Version // C17: version each existing segment is expected to have (by base)
+	id           string
+	prop         string
+	dir          string
+	scratch      string
+	cfg          ref.IndexCfg
+	opts         OpenOpts
+	log          klevdb.Log
+	model        *ref.Model
+	ops          []Op
+	everNonDec   bool
+	everPreEpoch bool // a message with a time before 1970-01-01 was published
+	lastPubT     int64
+	havePub      bool
+	gen          *GenState
+	cov          *Cov
+	rep          *Reporter
+	tier         string
+	seed         int64
+	idx          int
+	failed       bool
+	aborted      string
+	copyN        int
+	sizeOracle   bool
+	bkObs        []string // observation of the last backup, taken right after the call
+	bkOO         ObsOpts
+	bkOpts       OpenOpts
+	segVer       map[int64]ref.Version // C17: version each existing segment is expected to have (by base)
 }
 
 type OpResult struct {
@@ -56,6 +58,15 @@ type OpResult struct {
 	HaveMsgs bool
 	Stopped  bool // the multi-pass driver was stopped by its backoff: the result is the partial one
 	ClosedEr []error
+}
+
+var tooBigOnce sync.Once
+var tooBigBuf []byte
+
+// tooBigValue: one byte more than the 64 MiB bound of the record format (shared, never written to).
+func tooBigValue() []byte {
+	tooBigOnce.Do(func() { tooBigBuf = make([]byte, 64*1024*1024+1) })
+	return tooBigBuf
 }
 
 var noBackoff = func(context.Context) error { return nil }
@@ -107,8 +118,16 @@ func (h *Hist) exec(op *Op) *OpResult {
 				msgs[i].Time = time.UnixMicro(m.T).UTC().Add(time.Duration(m.NS))
 			}
 		}
+		if op.TooBig > 0 {
+			msgs[op.TooBig-1].Value = tooBigValue()
+			h.cov.Add("publish_with_oversized_message", 1)
+		}
 		res.Stage = "publish"
 		res.Next, res.Err = kPublish(l, msgs)
+		if op.TooBig > 0 && res.Err == nil {
+			// accepted: the model cannot carry it; the history ends here
+			res.Err = errors.New("verif: a message larger than the format's 64 MiB bound was accepted")
+		}
 		res.Pub = toRefs(msgs)
 		for i, m := range op.Msgs {
 			if !m.ZeroTime {
@@ -299,6 +318,9 @@ func (h *Hist) apply(op *Op, res *OpResult) {
 				h.everNonDec = false
 			}
 			h.lastPubT, h.havePub = m.T, true
+			if m.T < 0 {
+				h.everPreEpoch = true
+			}
 		}
 		h.model.Publish(res.Pub)
 	case "delete", "trim", "compact":
